@@ -26,7 +26,7 @@ ASSUMPTIONS = ['completing a span early but inside the opening invocation is all
 
 SHAPES = ['calls', 'recursion', 'mutual', 'exc_caught_in_caller', 'exc_caught_inside', 'exc_propagates', 'try_finally', 'gen_full', 'gen_partial',
           'gen_closed', 'klass', 'closure', 'with_block', 'loop']
-KINDS = ['span_line', 'span_method', 'capture_method', 'capture_line']
+KINDS = ['span_line', 'span_method', 'capture_method', 'capture_line', 'span_pair', 'span_line_pair', 'span_and_capture']
 
 
 def bounds(tier):
@@ -46,6 +46,11 @@ def cases(tier, seed):
             for fn in fns:
                 out.append({'k': 'seq', 'prog': name, 'kind': 'span_method', 'at': fn, 'fc': fc})
                 out.append({'k': 'seq', 'prog': name, 'kind': 'capture_method', 'at': fn, 'fc': fc})
+                # several deferred actions opened by one event (one pending context holding several callbacks)
+                out.append({'k': 'seq', 'prog': name, 'kind': 'span_pair', 'at': fn, 'fc': fc})
+                out.append({'k': 'seq', 'prog': name, 'kind': 'span_and_capture', 'at': fn, 'fc': fc})
+            for ln in lines[::2]:
+                out.append({'k': 'seq', 'prog': name, 'kind': 'span_line_pair', 'at': ln, 'fc': fc})
     for name in ('gen_partial', 'exc_propagates', 'calls', 'recursion'):
         lo = progs.load(name)
         for fn in progs.function_names(lo.code):
@@ -87,6 +92,16 @@ class Trace:
         return self.cur.get(threading.current_thread().name)
 
 
+def triggers_for(prog, kind, at, fc):
+    if kind == 'span_pair':
+        return [make_trigger(prog, 'span_method', at, fc, 'tp-a'), make_trigger(prog, 'span_method', at, fc, 'tp-b'), make_trigger(prog, 'span_method', at, fc, 'tp-c')]
+    if kind == 'span_line_pair':
+        return [make_trigger(prog, 'span_line', at, fc, 'tp-a'), make_trigger(prog, 'span_line', at, fc, 'tp-b')]
+    if kind == 'span_and_capture':
+        return [make_trigger(prog, 'span_method', at, fc, 'tp-a'), make_trigger(prog, 'capture_method', at, fc, 'tp-b'), make_trigger(prog, 'span_method', at, fc, 'tp-c')]
+    return [make_trigger(prog, kind, at, fc)]
+
+
 def run_program(prog, trigger, agent=None, thread=False):
     lo = progs.load(prog)
     tr = Trace()
@@ -100,7 +115,7 @@ def run_program(prog, trigger, agent=None, thread=False):
         tr.pushes.append((snap, threading.current_thread().name, tr.where()))
         return real_push(snap)
     agent.push.push_snapshot = push
-    agent.install([trigger])
+    agent.install(trigger if isinstance(trigger, list) else [trigger])
 
     def probe(ev, frame):
         tr.cur[threading.current_thread().name] = ev
@@ -149,7 +164,7 @@ def run_case(ctx, desc):
 
 def seq(ctx, desc):
     prog, kind, at, fc = desc['prog'], desc['kind'], desc['at'], desc['fc']
-    trig = make_trigger(prog, kind, at, fc)
+    trig = triggers_for(prog, kind, at, fc)
     lo, agent, j, tr, run = run_program(prog, trig)
     ctx.case()
     label = f'{prog} {kind}@{at} fire_count={fc}'
@@ -167,7 +182,7 @@ def check_run(ctx, desc, label, case, events, agent, tr, store, thread_name=None
     inv = analyse_invocations(events)
     nontrivial = False
     sp = [p for p in agent.config.plugins if isinstance(p, rig.RecSpanProcessor)]
-    if kind.startswith('span'):
+    if 'span' in kind:
         spans = sp[0].spans if sp else []
         opens = [e for e in agent.journal.events if e[0] == 'span_open']
         closes = [e for e in agent.journal.events if e[0] == 'span_close']
@@ -202,25 +217,26 @@ def check_run(ctx, desc, label, case, events, agent, tr, store, thread_name=None
                 return
             nontrivial = nontrivial or inv[oev.inv]['exit'][0] == 'exception' or any(
                 e2.func == oev.func and e2.inv != oev.inv and inv[e2.inv]['first'] < cev.idx <= inv[e2.inv]['last'] for e2 in events)
-    else:
+    if 'capture' in kind:
+        ckind = 'capture_method' if kind == 'span_and_capture' else kind
         pushes = tr.pushes
         # every capture snapshot: delivered once, at an exit event of the opening invocation, with that exit's value
         seen = set()
         for snap, th, ev in pushes:
             if id(snap) in seen:
-                ctx.violation(f'C15/capture-delivered-twice/{kind}', f'{label}: snapshot delivered twice', case)
+                ctx.violation(f'C15/capture-delivered-twice/{ckind}', f'{label}: snapshot delivered twice', case)
                 return
             seen.add(id(snap))
-        opened = [e for e in events if (kind == 'capture_method' and e.kind == 'call' and e.func == desc['at']) or
-                  (kind == 'capture_line' and e.kind == 'line' and e.line == desc['at'])]
+        opened = [e for e in events if (ckind == 'capture_method' and e.kind == 'call' and e.func == desc['at']) or
+                  (ckind == 'capture_line' and e.kind == 'line' and e.line == desc['at'])]
         if desc['fc'] == '1':
             opened = opened[:1]
         if len(pushes) > len(opened):
-            ctx.violation(f'C15/capture-count/{kind}', f'{label}: {len(pushes)} snapshots for {len(opened)} openings', case)
+            ctx.violation(f'C15/capture-count/{ckind}', f'{label}: {len(pushes)} snapshots for {len(opened)} openings', case)
             return
         unfinished = [o for o in opened if inv[o.inv]['exit'][0] == 'unfinished']
         if len(pushes) < len(opened) - len(unfinished):
-            ctx.violation(f'C15/capture-never-completed/{kind}', f'{label}: {len(pushes)} snapshots delivered for {len(opened)} openings '
+            ctx.violation(f'C15/capture-never-completed/{ckind}', f'{label}: {len(pushes)} snapshots delivered for {len(opened)} openings '
                                                                  f'({len(unfinished)} invocations never finish)', case)
             return
         remaining = list(opened)
@@ -231,13 +247,13 @@ def check_run(ctx, desc, label, case, events, agent, tr, store, thread_name=None
                 o = remaining[0]
                 d = inv[o.inv]
                 why = 'at-opening-event' if ev is not None and ev.idx == o.idx else 'by-other-invocation' if cands else 'after-invocation-ended'
-                ctx.violation(f'C15/capture-completed-{why}/{kind}', f'{label}: capture opened at {o} completed at {ev} (invocation {o.inv} spans events '
+                ctx.violation(f'C15/capture-completed-{why}/{ckind}', f'{label}: capture opened at {o} completed at {ev} (invocation {o.inv} spans events '
                                                                      f'{d["first"]}..{d["last"]})', case)
                 return
             o = own[0]
             remaining.remove(o)
             d = inv[o.inv]
-            if kind == 'capture_method':
+            if ckind == 'capture_method':
                 caps = [w for w in snap.watches if w.source == 'CAPTURE']
                 exit_kind, exit_val = d['exit']
                 is_generator = sum(1 for e2 in d['events'] if e2.kind == 'call') > 1 or bool(lo_is_generator(desc['prog'], o.func))
